@@ -149,6 +149,18 @@ def doOpCursor (W S : Nat) (data : Option (List Nat)) (x : Coder) (seg : List St
   | ["raw"] => doOp W S x seg
   | ["pos"] => doOp W S x seg
   | ["empty"] => doOp W S x seg
+  | ["nw"] => doOp W S x seg
+  | ["getc"] =>
+      -- the guard either shows the sealed words and restores the coder, or fails and (after the
+      -- D17 repair) leaves the coder as it was
+      match intoCompressed (cfgOf W S 1 1) x, getCompressedThenDrop (cfgOf W S 1 1) x with
+      | some ws, some y => some (y, showList ws.reverse, false)
+      | _, _ => some (x, "full", false)
+  | ["getb"] =>
+      match getBinary (cfgOf W S 1 1) x, getBinaryThenDrop (cfgOf W S 1 1) x with
+      | .ok ws, some y => some (y, showList ws.reverse, false)
+      | .error .backendFull, _ => some (x, "full", false)
+      | _, _ => some (x, "err", false)
   | ["seek", l, s] => do
       let l ← parseHex l
       let s ← parseHex s
